@@ -4,11 +4,11 @@ from contracts import c19, c10, c11, c05, enc
 LEVEL = "other"
 TRUSTED = []
 ASSUMPTIONS = []
-EXPLANATION = ('Proved (PyVC, unbounded): the ENCODER _encode_paths adds, for every sub-path constraint j, exactly the rows  sum_{e in R_j} x(e,i) >= |R_j| * coverage * r(i,j)  for every layer i and  sum_i r(i,j) >= 1  (some layer is responsible and then uses the requested share of the constraint\'s edges), for every assignment of the columns; the greedy shortcut accepts only decompositions that cover every constraint; in node mode an additional start v is expanded to v.0 and an additional end to v.1 (so routes ending at v include v); the flow-value validator honours the ignore set exactly (missing/negative values matter only on non-ignored edges). Bounded, solver-independent (SymMILP, when present): every assignment admitted by the captured MILP contains each constraint to the requested coverage in one route. Bounded (RC): returned solutions honour each constraint in a single route; objective = oracle optimum over exactly the constrained solutions; ignoring / scale 0 / additional starts-ends compared with the correspondingly modified oracle (rc/p_C10.py).')
+EXPLANATION = ('Proved (PyVC, unbounded): the ENCODER _encode_paths adds, for every sub-path constraint j, exactly the rows  sum_{e in R_j} x(e,i) >= |R_j| * coverage * r(i,j)  for every layer i and  sum_i r(i,j) >= 1  (some layer is responsible and then uses the requested share of the constraint\'s edges), for every assignment of the columns; the greedy shortcut accepts only decompositions that cover every constraint; in node mode an additional start v is expanded to v.0 and an additional end to v.1 (so routes ending at v include v) and a sub-path constraint given as nodes / edges is expanded to exactly the node edges / node-edge, edge, ..., closing node edge of the expanded graph; the flow-value validator honours the ignore set exactly (missing/negative values matter only on non-ignored edges). Bounded, solver-independent (SymMILP, when present): every assignment admitted by the captured MILP contains each constraint to the requested coverage in one route. Bounded (RC): returned solutions honour each constraint in a single route; objective = oracle optimum over exactly the constrained solutions; ignoring / scale 0 / additional starts-ends compared with the correspondingly modified oracle (rc/p_C10.py).')
 
 
 def units(tier):
-    return [u for u in c19.all_units() if "get_max_flow_value" in u.name] + c10.all_units() + c11.u_starts_ends() + c05.all_units() + [u for u in enc.all_units() if "C10" in u.props]
+    return [u for u in c19.all_units() if "get_max_flow_value" in u.name] + c10.all_units() + c11.u_starts_ends() + c11.u_expanded_constraints() + c05.all_units() + [u for u in enc.all_units() if "C10" in u.props]
 
 
 def bounded(tier, seed):
